@@ -71,10 +71,25 @@ def run(tier, rng, C):
         v2 += v
         s2 = st if s2 is None else C.merge_stats(s2, st)
     stats = C.merge_stats(s1, s2)
+    # the refusals ("refused loudly") are assertions: the same deterministic cases and one repetition of the random
+    # constructor also run against a RELEASE build of the harness + crate, where debug assertions and overflow
+    # checks are compiled out
+    ok, out = C.build_harness("harness", release=True)
+    if not ok:
+        raise RuntimeError("release build of the harness failed: " + out[-2000:])
+    C.IMPL_BIN[0] = C.HARNESS_BIN_RELEASE
+    try:
+        v3, s3 = C.differential("C04", det, nontrivial=lambda l, o: o.startswith("ok"))
+        v4, s4 = C.differential("C04", rnd, monitor=monitor, canon=canon, nontrivial=lambda l, o: o.startswith("ok"), shrinkable=False)
+    finally:
+        C.IMPL_BIN[0] = C.HARNESS_BIN
+    stats = C.merge_stats(stats, C.merge_stats(s3, s4))
+    stats["release_profile_cases"] = s3.get("evaluations", 0) + s4.get("evaluations", 0)
+    v2 += v3 + v4
     stats["samples"] = stats["samples"][:8]
     stats["rule"] = ("both constructors x verifier byte lengths 0..=200 exhaustively (+ non-ASCII strings whose byte length, not character count, is at the limits) "
                      "+ random legal verifiers (unreserved alphabet 70 %, arbitrary/non-ASCII 30 %); byte counts 0..=200, 255, 256, 65535, 65536, u32::MAX for the random constructor, "
-                     "legal counts drawn repeatedly in ascending, descending and random call order on one thread; every case goes through authorize URL and code exchange and reports what a server would read; non-trivial = a challenge was produced")
+                     "everything once more against a release build (no debug assertions); legal counts drawn repeatedly in ascending, descending and random call order on one thread; every case goes through authorize URL and code exchange and reports what a server would read; non-trivial = a challenge was produced")
     stats["exhaustive"] = False
     return v1 + v2, stats
 
